@@ -264,7 +264,7 @@ CHECKS = {
                             "(some optimal solution stays reachable through an open node that neither its bound nor a threshold discards) is evaluated by TLC at every pop"),
     "C10": simple_seq_check("C10", [("dom", "allimpacted", 6, 500, 900, []), ("dom", "allimpacted", 7, 250, 500, []), ("dom", "allimpacted", 8, 60, 150, [])],
                             "; each configuration is run without and with the dominance checker (exact rule: superset / capacity with value; weakened rule: additionally keyed by parity)"),
-    "C02": simple_seq_check("C02", [("base", "allimpacted", 6, 150, 400, []), ("cache", "allimpacted", 6, 100, 300, []), ("primal", "allimpacted", 6, 60, 200, []), ("cutoff", "allimpacted", 6, 80, 200, []), ("longarc", "longarcs", 6, 60, 200, [])],
+    "C02": simple_seq_check("C02", [("base", "allimpacted", 6, 150, 400, ["--sweep", 300]), ("cache", "allimpacted", 6, 100, 300, []), ("primal", "allimpacted", 6, 60, 200, []), ("cutoff", "allimpacted", 6, 80, 200, []), ("longarc", "longarcs", 6, 60, 200, [])],
                             "; C02 is evaluated on the outcome of every run: uninterrupted, warm-started, cut off at every poll index"),
     "C05": simple_seq_check("C05", [("cutoff", "allimpacted", 6, 150, 400, []), ("cutoff", "allimpacted", 7, 50, 150, []), ("cutoff", "knapsack", 9, 40, 150, []), ("cutoff", "longarcs", 6, 30, 100, [])],
                             "; cutoff series: the cutoff fires at every poll index k = 1..K+1 (K = polls of the uninterrupted run)"),
